@@ -116,6 +116,19 @@ fn purge(tag: u32) {
 fn retag(from: u32, to: u32) {
     DROP_LOG.with(|l| l.borrow_mut().iter_mut().for_each(|e| if e.0 == from { e.0 = to }));
 }
+fn log_len() -> usize {
+    DROP_LOG.with(|l| l.borrow().len())
+}
+/// A payload handed to a call that panicked before storing it is dropped by the unwinding, not by
+/// the arena: it belongs to no arena's drop log. Removes that entry (logged since `mark`).
+fn forget_arg(mark: usize, tag: u32, v: u64) {
+    DROP_LOG.with(|l| {
+        let mut l = l.borrow_mut();
+        if let Some(p) = l.iter().skip(mark).position(|e| *e == (tag, v)) {
+            l.remove(mark + p);
+        }
+    })
+}
 fn take_log(tag: u32) -> Vec<u64> {
     DROP_LOG.with(|l| {
         let mut l = l.borrow_mut();
@@ -298,24 +311,32 @@ impl Exec {
             "new" => {
                 let v: u64 = num(t, 1)?;
                 let ar = &mut self.cur.arena;
+                let mark = log_len();
                 match guard(|| ar.new_node(Pay { v, tag })) {
                     Ok(id) => {
                         self.cur.issued.push(id);
                         format!("r id {}", fid(id))
                     }
-                    Err(_) => "r panic".into(),
+                    Err(_) => {
+                        forget_arg(mark, tag, v);
+                        "r panic".into()
+                    }
                 }
             }
             "appv" => {
                 let p = self.h(t, 1)?;
                 let v: u64 = num(t, 2)?;
                 let ar = &mut self.cur.arena;
+                let mark = log_len();
                 match guard(|| p.append_value(Pay { v, tag }, ar)) {
                     Ok(id) => {
                         self.cur.issued.push(id);
                         format!("r id {}", fid(id))
                     }
-                    Err(_) => "r panic".into(),
+                    Err(_) => {
+                        forget_arg(mark, tag, v);
+                        "r panic".into()
+                    }
                 }
             }
             op @ ("app" | "pre" | "ia" | "ib" | "capp" | "cpre" | "cia" | "cib") => {
@@ -352,10 +373,16 @@ impl Exec {
                 let a = self.h(t, 1)?;
                 let v: u64 = num(t, 2)?;
                 let ar = &mut self.cur.arena;
+                let mark = log_len();
                 let r = guard(|| {
                     *ar[a].get_mut() = Pay { v, tag };
                 });
-                if r.is_ok() { "r ok".into() } else { "r panic".into() }
+                if r.is_ok() {
+                    "r ok".into()
+                } else {
+                    forget_arg(mark, tag, v);
+                    "r panic".into()
+                }
             }
             "clear" => {
                 let ar = &mut self.cur.arena;
